@@ -104,7 +104,9 @@ def run(s):
                         continue
                     rng = s.rng('subset', idx)
                     pool = gen.text_pool('plain')
-                    ro_txt = gen.rand_ro(rng, n_stories=rng.randint(1, 4), pool=pool, message_id=1)
+                    # the roCreate is not always the message with the lowest ID
+                    ro_txt = gen.rand_ro(rng, n_stories=rng.randint(1, 4), pool=pool,
+                                         message_id=rng.choice([1, 1, 104, 117]))
                     state = Abs(ro_txt)
                     ids = gen.Ids('T%d.' % idx)
                     docs = [ro_txt] + [ok_or_failing(rng, state, k, f, ids, pool) for k, f in enumerate(mask)]
@@ -122,7 +124,7 @@ def run(s):
                 continue
             rng = s.rng('long', c)
             pool = gen.text_pool('plain')
-            ro_txt = gen.rand_ro(rng, n_stories=rng.randint(0, 5), pool=pool, message_id=1)
+            ro_txt = gen.rand_ro(rng, n_stories=rng.randint(0, 5), pool=pool, message_id=rng.choice([1, 1, 1, 14, 23]))
             state = Abs(ro_txt)
             ids = gen.Ids('L%d.' % c)
             docs = [ro_txt]
